@@ -40,9 +40,17 @@ func (b *builder) pts(n int) []vkit.P2 {
 	return out
 }
 
+// count draws a member size: lo..hi, and in a few per cent of the draws 250-450 (long members).
+func (b *builder) count(lo, hi int) int {
+	if rapid.IntRange(0, 39).Draw(b.t, "longmember") == 23 {
+		return rapid.IntRange(250, 450).Draw(b.t, "nlong")
+	}
+	return rapid.IntRange(lo, hi).Draw(b.t, "n")
+}
+
 // ring: closed, >=3 distinct vertices, with a unique left-most vertex (by a whole lattice step).
 func (b *builder) ring() []vkit.P2 {
-	n := rapid.IntRange(2, 6).Draw(b.t, "nring")
+	n := b.count(2, 6)
 	p := b.pts(n)
 	S := 100 * b.tol
 	minx := float64(p[0][0])
@@ -68,13 +76,13 @@ func (b *builder) geom(depth int) vkit.GJ {
 	case "Point":
 		g.Pts = b.pts(1)
 	case "MultiPoint":
-		g.Pts = b.pts(rapid.IntRange(0, 5).Draw(b.t, "n"))
+		g.Pts = b.pts(b.count(0, 5))
 	case "LineString":
-		g.Pts = b.pts(rapid.IntRange(0, 6).Draw(b.t, "n"))
+		g.Pts = b.pts(b.count(0, 6))
 	case "MultiLineString":
 		n := rapid.IntRange(0, 4).Draw(b.t, "nm")
 		for i := 0; i < n; i++ {
-			g.Rings = append(g.Rings, b.pts(rapid.IntRange(1, 5).Draw(b.t, "n")))
+			g.Rings = append(g.Rings, b.pts(b.count(1, 5)))
 		}
 	case "Polygon":
 		n := rapid.IntRange(0, 4).Draw(b.t, "nr")
@@ -430,7 +438,7 @@ func run(c Case) (v vkit.Verdict) {
 func TestProp(t *testing.T) {
 	vkit.Main(t, vkit.Spec[Case]{
 		ID: "C15",
-		Rule: "rapid: base geometry g of any of the eight types (collections nested to depth 2, members possibly empty) on a lattice of spacing 100*tol with every leaf member in " +
+		Rule: "rapid: base geometry g of any of the eight types (collections nested to depth 2, members possibly empty; members of 0-6 vertices, a few per cent 250-450) on a lattice of spacing 100*tol with every leaf member in " +
 			"its own block (distinct members far apart) and closed rings having a unique left-most vertex by a lattice step; h = g with every coordinate perturbed by <0.45*tol " +
 			"(closing vertex kept equal to the first), members of multi-line-strings/multi-polygons/polygon rings/collections permuted and ring start vertices rotated -> must be " +
 			"similar; or additionally one negative edit (other type, member inserted/deleted at any position, vertex inserted/deleted, line reversed, one vertex displaced by " +
